@@ -280,7 +280,7 @@ var SpecialText = func() string {
 		b = append(b, c, 'x')
 	}
 	b = append(b, 0x7f)
-	b = append(b, " \" \\ / < > & ' \u2028 | \u2029 | \ufffd | é | 日 | 😀 | \\n \\u0041 end"...)
+	b = append(b, " \" \\ / < > & ' \u2028 | \u2029 | \ufffd | é | 日 | 😀 | \U00012028 | \U00022029 | \U00010022 | \U0001005C | \\n \\u0041 end"...)
 	return string(b)
 }()
 
